@@ -157,6 +157,9 @@ pub struct Step<'a> {
     pub accesses: &'a [Access],
     /// transaction as currently held by the VM (after the step)
     pub tx: &'a Script,
+    /// the VM's storage after the step (read `storage.inner` directly: going through the
+    /// recording wrapper would add entries to the next step's access log)
+    pub storage: &'a RecStorage,
     /// location `(contract, $pc - $is)` reported by the debug event that suspended the VM
     /// after this step (None when the program ended)
     pub event: Option<(ContractId, Word)>,
@@ -312,6 +315,7 @@ pub fn run_stepped_on(
             };
             let new_receipts = &vm.receipts()[a.receipts_len.min(vm.receipts().len())..];
             let instr = pre_word.and_then(|wd| Instruction::try_from(wd.to_be_bytes()).ok());
+            let storage_view: &RecStorage = (*vm).as_ref();
             let step = Step {
                 index: steps,
                 pre: &a,
@@ -322,6 +326,7 @@ pub fn run_stepped_on(
                 new_receipts,
                 accesses: &accesses,
                 tx: vm.transaction(),
+                storage: storage_view,
                 event: match &cur {
                     Ok(ProgramState::RunProgram(fuel_vm::state::DebugEval::Breakpoint(b))) => Some((*b.contract(), b.pc())),
                     _ => None,
